@@ -216,8 +216,11 @@ pub fn build(seed: u64) -> (Project, Concrete) {
 pub fn run_one(_env: &Env, index: u64, seed: u64, stats: &mut Stats) -> (Vec<Found>, u64, u64) {
     let (p, c) = build(seed);
     if let Some(e) = self_check(&p) {
+        // the generator produced something its own model reads differently: no verdict from this run
         stats.inc("harness.c12_generator_self_check_failed");
+        stats.inc("runs");
         eprintln!("sylt-sim: C12 generator self-check failed at index {}: {}", index, e);
+        return (Vec::new(), c.fnv(), 0);
     }
     let ex = Expect::from_json(&p.extra_json());
     let (vs, out, flat) = check(&c, &ex);
